@@ -16,7 +16,7 @@ from typing import Dict, List, Optional, Set, Tuple
 from ..core import AnalysisError, Func, Repo, dotted, norm, parents
 from ..cfg import CFG
 from ..report import Check
-from ..util import call_name, calls_in, enclosing_trys, handler_names, is_catch_all, reraises
+from ..util import call_name, calls_in, enclosing_trys, handler_names, is_catch_all, reraises, origins
 from .c01 import PHASE_ENTRIES, build_engine
 
 PD = 'pydoctor.epydoc.markup.ParsedDocstring'
@@ -223,13 +223,7 @@ def run(repo: Repo, chk: Check, thorough: bool = False) -> None:
             ok = False
             why = 'context argument not found'
             if isinstance(ctx, ast.Name):
-                srcs = []
-                for n in s.func.walk():
-                    if isinstance(n, ast.Assign):
-                        for t in n.targets:
-                            names = [t] if isinstance(t, ast.Name) else list(t.elts) if isinstance(t, (ast.Tuple, ast.List)) else []
-                            if any(isinstance(x, ast.Name) and x.id == ctx.id for x in names):
-                                srcs.append(n.value)
+                srcs = [v for _, v in origins(repo, s.func, ctx.id)]
                 ok = bool(srcs) and all(isinstance(v, ast.Call) and call_name(v) in ('ensure_parsed_docstring', '_get_parsed_summary')
                                         or (isinstance(v, ast.Attribute) and v.attr == 'parent') for v in srcs)
                 why = (f'`{ctx.id}` is the docstring source returned by {"/".join(sorted({call_name(v) for v in srcs if isinstance(v, ast.Call)}))}'
